@@ -35,7 +35,7 @@ def bases(ctx):
                 L2 = list(cfgl) + ["snap", G.NOFIRE, G.op(0, "get", KEY), G.op(0, "touch", KEY), G.op(0, "put", ("k2", 1, 2), "W", 1),
                                    G.op(0, "set", ("k5", 2, 3), "Q", 1), G.op(0, "ensure", ("k3", 5, 6), "val:P:1"), G.op(0, "get", ("k5", 2, 3)), "snap"]
                 # two hours later, another process writes with maintenance firing
-                L3 = list(cfgl) + [G.FIRE, G.op(0, "set", ("k4", 3, 4), "W", 1), G.op(0, "get", KEY), "snap", G.NOFIRE, G.op(0, "set", KEY, "Q", 1), G.op(0, "get", KEY), "snap"]
+                L3 = list(cfgl) + [G.FIRE, G.op(0, "set", ("k4", 7, 9), "W", 1), G.op(0, "get", KEY), "snap", G.NOFIRE, G.op(0, "set", KEY, "Q", 1), G.op(0, "get", KEY), "snap"]
                 out.append(({"kind": kind, "pre": pname, "op": opk, "w": w}, L1, L2, L3))
     return out
 
